@@ -130,3 +130,13 @@ Theorem C20_code_array_push_request : forall definite e al ok r, e < 2^64 -> al 
             c = N.max 1 (2 * al) /\ al < c /\ c < 2 ^ 64.
 Proof. exact code_array_push_request. Qed.
 Print Assumptions C20_code_array_push_request.
+(* ---- translator tie, second wave: _cbor_alloc_multiple / _cbor_realloc_multiple as translated from this
+   run's clang AST ask the allocator for exactly the model's byte count, or make no request ---- *)
+From CB Require Import Bridge_leaf_alloc.
+Theorem C20_code_alloc_multiple : forall a b, a < 2^64 -> b < 2^64 ->
+  g_cbor_alloc_multiple (Z.of_N a) (Z.of_N b) = option_map Z.of_N (alloc_multiple_req 64 a b).
+Proof. exact bridge_alloc_multiple. Qed.
+Theorem C20_code_realloc_multiple : forall a b, a < 2^64 -> b < 2^64 ->
+  g_cbor_realloc_multiple (Z.of_N a) (Z.of_N b) = option_map Z.of_N (alloc_multiple_req 64 a b).
+Proof. exact bridge_realloc_multiple. Qed.
+Print Assumptions C20_code_alloc_multiple.
